@@ -386,3 +386,325 @@ RECIPES = [
     ("C03", "neutral", [], S) + _ALLOC_HELPER + ("spectrum and history arrays allocated and zeroed by one helper (a local array returned twice)",),
     ("C03", "neutral", [], S, _VRS_TAIL, _VRS_TAIL_INCREMENTAL, "vrs: counted while loop, result tuple assembled incrementally, dict(...) response"),
 ]
+
+
+# ------------------------------------------------------------------------------------------------------------------------------------------------
+# third pass: srs_frf (C03-R9) and the vrs quadrature weights / return forms (C03-R6)
+_FRF_ABS = "    nfrf = frf.shape[1]\n    frf = np.abs(frf)\n"
+_FRF_INTERP = '''        ifunc = interp.interp1d(
+            frf_frq, frf, axis=0, bounds_error=False, fill_value=0, assume_sorted=True
+        )
+        frf = ifunc(ffreq)
+'''
+_FRF_H = '''        if el:
+            fw = freqw.reshape(1, -1)
+            H = (
+                ks[pvel].reshape(-1, 1)
+                - ms[pvel].reshape(-1, 1) @ fw**2
+                + 1j * (bs[pvel].reshape(-1, 1) @ fw)
+            )
+'''
+_FRF_H_EXPR = '''            H = (
+                ks[pvel].reshape(-1, 1)
+                - ms[pvel].reshape(-1, 1) @ fw**2
+                + 1j * (bs[pvel].reshape(-1, 1) @ fw)
+            )
+'''
+_FRF_LOOP_BODY = '''            a[:] = 0.0
+            fs = frf[:, j]  # len(frf)
+            if rb:
+                a[pvrb] = -fs  # / ms ... since ms == 1
+            if el:
+                a[pvel] = (fs * freqw**2) / H
+            # from relative to absolute acceleration:
+            a += fs
+'''
+_FRF_LOOP = '''        for j in range(nfrf):
+            # compute relative response, then absolute (see eqns in srs)
+''' + _FRF_LOOP_BODY + '''            if getresp:
+                frfs[:, j, :] = a.T
+            shk[:, j] = abs(a).max(axis=1)
+'''
+_FRF_TAIL = '''        if getresp:
+            resp = {"freq": ffreq, "frfs": frfs, "srs_frq": srs_frq}
+            if return_srs_frq:
+                return shk, srs_frq, resp
+            return shk, resp
+
+    if return_srs_frq:
+        return shk, srs_frq
+    return shk
+'''
+_FRF_THIN = '''        df = np.diff(ffreq)
+        pv = np.ones(len(ffreq), bool)
+        pv[1:] = df > 1.0e-5
+        ffreq = ffreq[pv]
+'''
+_FRF_DEFAULT = "        if scale_by_Q_only:\n            srs_frq = frf_frq\n        else:\n            srs_frq = frf_frq / p_peak\n"
+_FRF_SEED_H = _multi((_FRF_ABS, "    nfrf = frf.shape[1]\n"), ("        newfrf = np.zeros((nf, nfrf), float)\n", "        newfrf = np.zeros((nf, nfrf), frf.dtype)\n"),
+                     ("        frf = ifunc(ffreq)\n", "        frf = ifunc(ffreq)\n\n    # only the magnitude of the (expanded) input is needed from here on:\n    frf = np.abs(frf)\n"))
+_FRF_OWN_MAGNITUDE = '''        if not getresp:
+            # only the gain |H| is needed
+            gain = np.zeros((n, nf))
+            if el:
+                kk = ks[pvel].reshape(-1, 1)
+                cw = bs[pvel].reshape(-1, 1) * freqw
+                gain[pvel] = np.sqrt((kk**2 + cw**2) / ((kk - freqw**2) ** 2 + cw**2))
+            for j in range(nfrf):
+                shk[:, j] = (gain * frf[:, j]).max(axis=1)
+        else:
+            for j in range(nfrf):
+                a[:] = 0.0
+                fs = frf[:, j]
+                if rb:
+                    a[pvrb] = -fs
+                if el:
+                    a[pvel] = (fs * freqw**2) / H
+                a += fs
+                frfs[:, j, :] = a.T
+                shk[:, j] = abs(a).max(axis=1)
+'''
+_FRF_OWN_WHERE = _multi((_FRF_H, "        fw = freqw.reshape(1, -1)\n        H = ks.reshape(-1, 1) - fw**2 + 1j * (bs.reshape(-1, 1) @ fw)\n"),
+                        (_FRF_LOOP, '''        for j in range(nfrf):
+            fs = frf[:, j]
+            a = np.where(pvrb[:, None], 0.0, fs * (freqw**2 / H + 1.0))
+            if getresp:
+                frfs[:, j, :] = a.T
+            shk[:, j] = abs(a).max(axis=1)
+'''))
+_FRF_OWN_ALL = '''        # all FRFs at once: (oscillator, frequency, frf)
+        a3 = np.zeros((n, nf, nfrf), complex)
+        if el:
+            a3[pvel] = (freqw**2 / H)[:, :, None] * frf[None, :, :]
+        if rb:
+            a3[pvrb] = -frf[None, :, :]
+        a3 = a3 + frf[None, :, :]
+        shk[:] = abs(a3).max(axis=1)
+        if getresp:
+            frfs = a3.transpose(1, 2, 0)
+'''
+_FRF_OWN_OSC = _multi((_FRF_H, ""), (_FRF_LOOP, '''        for k in range(n):
+            if ks[k] < 0.005:
+                resp_k = np.zeros((nf, nfrf), complex)
+            else:
+                Hk = ks[k] - freqw**2 + 1j * (bs[k] * freqw)
+                resp_k = frf * (freqw**2 / Hk + 1.0)[:, None]
+            if getresp:
+                frfs[:, :, k] = resp_k
+            shk[k] = abs(resp_k).max(axis=0)
+'''))
+_FRF_H_ALWAYS = '''        fw = freqw.reshape(1, -1)
+        H = (
+            ks[pvel].reshape(-1, 1)
+            - ms[pvel].reshape(-1, 1) @ fw**2
+            + 1j * (bs[pvel].reshape(-1, 1) @ fw)
+        )
+'''
+_FRF_OWN_NOTESTS = _multi((_FRF_H, _FRF_H_ALWAYS), (_FRF_LOOP, '''        for j in range(nfrf):
+            fs = frf[:, j]
+            a[:] = fs
+            a[pvrb] = 0.0
+            a[pvel] += (fs * freqw**2) / H
+            if getresp:
+                frfs[:, j, :] = a.T
+            shk[:, j] = abs(a).max(axis=1)
+'''))
+_FRF_HELPERS = '''
+
+def _frf_peak_ratio(Q):
+    # maximizing Omega / omega_n ratio (see math in srs_frf docstr)
+    return Q * np.sqrt(np.sqrt(1 + 2 / Q**2) - 1)
+
+
+def _frf_grid(frf_frq, srs_frq, p_peak):
+    grid = np.sort(np.hstack((frf_frq, p_peak * srs_frq)))
+    keep = np.ones(len(grid), bool)
+    keep[1:] = np.diff(grid) > 1.0e-5
+    return grid[keep]
+
+
+def _frf_expand(mag, frf_frq, grid):
+    if len(frf_frq) != 1:
+        return interp.interp1d(
+            frf_frq, mag, axis=0, bounds_error=False, fill_value=0, assume_sorted=True
+        )(grid)
+    out = np.zeros((len(grid), mag.shape[1]), float)
+    row = min(np.searchsorted(grid, frf_frq)[0], len(grid) - 1)
+    out[row] = mag
+    return out
+
+
+def _frf_sdof(fs, omega, ks, bs, out):
+    stiff = ks >= 0.005
+    out[:] = 0.0
+    if np.any(stiff):
+        den = ks[stiff][:, None] - omega**2 + 1j * bs[stiff][:, None] * omega
+        out[stiff] = fs * omega**2 / den
+    if not np.all(stiff):
+        out[~stiff] = -fs
+    out += fs
+    return out
+'''
+_FRF_HELPER_BODY = '''    if getresp and scale_by_Q_only:
+        raise ValueError("`getresp` and `scale_by_Q_only` cannot both be True")
+
+    p_peak = _frf_peak_ratio(Q)
+    frf_frq = np.asarray(frf_frq)
+    if return_srs_frq is None:
+        return_srs_frq = srs_frq is None
+    if srs_frq is None:
+        srs_frq = frf_frq if scale_by_Q_only else frf_frq / p_peak
+    else:
+        srs_frq = np.asarray(srs_frq)
+
+    mag = np.abs(np.asarray(frf))
+    if mag.ndim == 1:
+        mag = mag.reshape(-1, 1)
+    nfrf = mag.shape[1]
+    n = len(srs_frq)
+
+    if scale_by_Q_only:
+        shk = Q * _frf_expand(mag, frf_frq, srs_frq)
+        return (shk, srs_frq) if return_srs_frq else shk
+
+    ffreq = _frf_grid(frf_frq, srs_frq, p_peak)
+    nf = len(ffreq)
+    mag = _frf_expand(mag, frf_frq, ffreq)
+    ws = 2.0 * np.pi * srs_frq
+    omega = 2 * np.pi * ffreq
+    shk = np.empty((n, nfrf), float)
+    a = np.empty((n, nf), complex)
+    frfs = np.empty((nf, nfrf, n), complex) if getresp else None
+    for j in range(nfrf):
+        _frf_sdof(mag[:, j], omega, ws**2, ws / Q, a)
+        if getresp:
+            frfs[:, j, :] = a.T
+        shk[:, j] = abs(a).max(axis=1)
+
+    result = (shk,)
+    if return_srs_frq:
+        result = result + (srs_frq,)
+    if getresp:
+        result = result + ({"freq": ffreq, "frfs": frfs, "srs_frq": srs_frq},)
+    return result[0] if len(result) == 1 else result
+'''
+
+
+def _frf_body():
+    """(old, new): the whole body of srs_frf replaced by a version built from four module-level helpers (defined after it)"""
+    import os
+    from . import core
+    try:
+        src = open(os.path.join(core.REPO, S)).read()
+        i0 = src.index("    if getresp and scale_by_Q_only:\n        raise ValueError(\"`getresp` and `scale_by_Q_only` cannot both be True\")\n")
+        i1 = src.index("\n\ndef srsmap(")
+    except (OSError, ValueError):
+        return "<srs_frf body not found>", ""
+    return src[i0:i1 + 1], _FRF_HELPER_BODY + _FRF_HELPERS
+
+
+_FRF_OWN_HELPERS = _frf_body()
+_FRF_OWN_HELPERS_BAD = (_FRF_OWN_HELPERS[0], _FRF_OWN_HELPERS[1].replace("    out += fs\n", ""))
+_VRS_DF = '''    # Create delta_f for area calculation:
+    df = np.empty(rf)
+    df[1:-1] = (freq[2:] - freq[:-2]) / 2
+    df[0] = freq[1] - freq[0]
+    df[-1] = freq[-1] - freq[-2]
+'''
+R9, R6 = ["C03-R9"], ["C03-R6"]
+
+RECIPES += [
+    # ---- break: the seed of this pass (H) and its siblings
+    ("C03", "break", R9, S) + _FRF_SEED_H + ("srs_frf: magnitude taken after the expansion onto the analysis grid (seed H)",),
+    ("C03", "break", R9, S, _FRF_ABS, "    nfrf = frf.shape[1]\n", "srs_frf: complex FRF interpolated and used as it is (no magnitude)"),
+    ("C03", "break", R9, S, "    frf = np.abs(frf)\n", "    frf = np.abs(frf.real)\n", "srs_frf: magnitude of the real part only"),
+    ("C03", "break", R9, S, "        bs = 1 / Q * ws\n", "        bs = 2 / Q * ws\n", "srs_frf: damping term doubled"),
+    ("C03", "break", R9, S, "        ks = ws**2\n", "        ks = ws\n", "srs_frf: stiffness not squared"),
+    ("C03", "break", R9, S, "    p_peak = Q * np.sqrt(np.sqrt(1 + 2 / Q**2) - 1)\n", "    p_peak = Q * np.sqrt(np.sqrt(1 + 1 / Q**2) - 1)\n", "srs_frf: p_peak is not the maximiser of |H|"),
+    ("C03", "break", R9, S, "            a += fs\n", "            pass\n", "srs_frf: relative instead of absolute acceleration"),
+    ("C03", "break", R9, S, "            shk[:, j] = abs(a).max(axis=1)\n", "            shk[:, j] = abs(a).max(axis=0)\n", "srs_frf: peak over the oscillators instead of over the grid"),
+    ("C03", "break", R9, S, "            shk[:, j] = abs(a).max(axis=1)\n", "            shk[:, j] = abs(a.real).max(axis=1)\n", "srs_frf: peak of the real part of the response"),
+    ("C03", "break", R9, S, "        shk = frf * Q\n", "        shk = frf * np.sqrt(Q**2 + 1)\n", "srs_frf: scale_by_Q_only scales by sqrt(Q^2+1)"),
+    ("C03", "break", R9, S, "    if scale_by_Q_only:\n        ffreq = srs_frq\n", "    if scale_by_Q_only:\n        ffreq = p_peak * srs_frq\n", "srs_frf: scale_by_Q_only evaluated off the oscillator frequencies"),
+    ("C03", "break", R9, S, "            srs_frq = frf_frq / p_peak\n", "            srs_frq = frf_frq * p_peak\n", "srs_frf: default oscillator frequencies frf_frq * p_peak"),
+    ("C03", "break", R9, S, _FRF_DEFAULT, _FRF_DEFAULT.replace("if scale_by_Q_only:", "if not scale_by_Q_only:"), "srs_frf: default oscillator frequencies of the two modes swapped"),
+    ("C03", "break", R9, S, "        ffreq = np.sort(np.hstack((frf_frq, p_peak * srs_frq)))\n", "        ffreq = np.sort(np.hstack((frf_frq, srs_frq)))\n", "srs_frf: grid without the maximising frequencies"),
+    ("C03", "break", R9, S, "        ffreq = np.sort(np.hstack((frf_frq, p_peak * srs_frq)))\n", "        ffreq = np.sort(p_peak * srs_frq)\n", "srs_frf: grid without the FRF frequencies"),
+    ("C03", "break", R9, S, "        if return_srs_frq is None:\n            return_srs_frq = True\n", "        if return_srs_frq is None:\n            return_srs_frq = False\n",
+     "srs_frf: srs_frq not returned by default when it was None"),
+    ("C03", "break", R9, S, "                a[pvrb] = -fs  # / ms ... since ms == 1\n", "                a[pvrb] = fs  # / ms ... since ms == 1\n", "srs_frf: rigid oscillators respond with 2 * frf"),
+    ("C03", "break", R9, S, "        pvrb = ks < 0.005  # ks/ms < .005 ... since ms == 1\n", "        pvrb = ks > 0.005  # ks/ms < .005 ... since ms == 1\n", "srs_frf: rigid / elastic test inverted"),
+    ("C03", "break", R9, S, '            resp = {"freq": ffreq, "frfs": frfs, "srs_frq": srs_frq}\n', '            resp = {"freq": frf_frq, "frfs": frfs, "srs_frq": srs_frq}\n', "srs_frf: resp['freq'] is not the analysis grid"),
+    ("C03", "break", R9, S, "                frfs[:, j, :] = a.T\n", "                frfs[:, j, :] = abs(a.T)\n", "srs_frf: resp['frfs'] holds magnitudes"),
+    ("C03", "break", R9, S, "                + 1j * (bs[pvel].reshape(-1, 1) @ fw)\n", "                - 1j * (bs[pvel].reshape(-1, 1) @ fw)\n", "srs_frf: transfer function conjugated (resp['frfs'])"),
+    ("C03", "break", R9, S, "                a[pvel] = (fs * freqw**2) / H\n", "                a[pvel] = (fs * freqw) / H\n", "srs_frf: numerator Omega instead of Omega^2"),
+    ("C03", "break", R9, S, "        freqw = 2 * np.pi * ffreq\n", "        freqw = ffreq\n", "srs_frf: forcing frequency in Hz against oscillator frequency in rad/s"),
+    ("C03", "break", R9, S, "                return shk, srs_frq, resp\n", "                return shk, resp, srs_frq\n", "srs_frf: return tuple in the wrong order"),
+    ("C03", "break", R9, S, "            frf_frq, frf, axis=0, bounds_error=False, fill_value=0, assume_sorted=True\n", "            srs_frq, frf, axis=0, bounds_error=False, fill_value=0, assume_sorted=True\n",
+     "srs_frf: FRF interpolated from the wrong abscissae"),
+    ("C03", "break", R9, S, _FRF_LOOP, _FRF_OWN_MAGNITUDE.replace("((kk - freqw**2) ** 2 + cw**2)", "((kk - freqw**2) ** 2 - cw**2)"), "srs_frf: magnitude-only path with a wrong gain"),
+    ("C03", "break", R9, S, _FRF_INTERP, "        frf = np.column_stack(\n            [np.abs(np.interp(ffreq, frf_frq, frf[:, k].real, left=0.0, right=0.0)) for k in range(nfrf)]\n        )\n",
+     "srs_frf: np.interp per column on the real part"),
+    ("C03", "break", R9, S) + (_FRF_OWN_OSC[0], _FRF_OWN_OSC[1].replace("if ks[k] < 0.005:", "if ks[k] > 0.005:")) + ("srs_frf: loop over oscillators, rigid test inverted",),
+    ("C03", "break", R9, S) + (_FRF_OWN_WHERE[0], _FRF_OWN_WHERE[1].replace("np.where(pvrb[:, None], 0.0, fs * (freqw**2 / H + 1.0))", "np.where(pvrb[:, None], fs * (freqw**2 / H + 1.0), 0.0)"))
+    + ("srs_frf: np.where assembly with the arms swapped",),
+    ("C03", "break", R9, S) + _FRF_OWN_HELPERS_BAD + ("srs_frf built from helpers: the response helper returns the relative acceleration",),
+    ("C03", "break", R6, S, "    df[1:-1] = (freq[2:] - freq[:-2]) / 2\n", "    df[1:-1] = (freq[2:] - freq[:-2]) * 2\n", "vrs: interior quadrature weight four times the step"),
+    ("C03", "break", R6, S, "    df[1:-1] = (freq[2:] - freq[:-2]) / 2\n", "    df[1:-1] = freq[2:] - freq[:-2]\n", "vrs: interior quadrature weight twice the step"),
+    ("C03", "break", R6, S, "    df[0] = freq[1] - freq[0]\n", "    df[0] = freq[2] - freq[0]\n", "vrs: first quadrature weight two steps"),
+    ("C03", "break", R6, S, "    # Compute Miles' equation\n", "    df[-1] = freq[-2] - freq[-1]\n    # Compute Miles' equation\n", "vrs: last quadrature weight negative"),
+    ("C03", "break", R6, S, '        resp["f"] = freq\n', '        resp["f"] = Fn\n', "vrs: resp['f'] is not the grid of the responses"),
+    ("C03", "break", R6, S, "    if getmiles:\n        return z_vrs, z_miles\n    return z_vrs\n", "    if getmiles:\n        return z_vrs, z_miles\n    return (z_vrs,)\n", "vrs: the spectrum alone returned as a tuple"),
+    # ---- neutral: refactorings of srs_frf / vrs the rules must not notice
+    ("C03", "neutral", [], S, "    frf = np.asarray(frf)\n    if frf.ndim == 1:\n        frf = frf.reshape(-1, 1)\n" + _FRF_ABS,
+     "    frf = np.abs(np.asarray(frf))\n    if frf.ndim == 1:\n        frf = frf[:, np.newaxis]\n    nfrf = frf.shape[1]\n", "srs_frf: magnitude taken at np.asarray"),
+    ("C03", "neutral", [], S, "    frf = np.abs(frf)\n", "    frf = np.hypot(frf.real, frf.imag)\n", "srs_frf: magnitude as hypot(re, im)"),
+    ("C03", "neutral", [], S, "    frf = np.abs(frf)\n", "    frf = np.sqrt(frf.real**2 + frf.imag**2)\n", "srs_frf: magnitude as sqrt(re^2 + im^2)"),
+    ("C03", "neutral", [], S, "        bs = 1 / Q * ws\n", "        zeta = 1 / (2 * Q)\n        bs = 2 * zeta * ws\n", "srs_frf: damping through zeta"),
+    ("C03", "neutral", [], S, "    p_peak = Q * np.sqrt(np.sqrt(1 + 2 / Q**2) - 1)\n", "    zeta_ = 0.5 / Q\n    p_peak = np.sqrt(np.sqrt(1 + 8 * zeta_**2) - 1) / (2 * zeta_)\n",
+     "srs_frf: p_peak in the docstring's zeta form"),
+    ("C03", "neutral", [], S, _FRF_H_EXPR, "            H = ks[pvel][:, None] - fw**2 + 1j * bs[pvel][:, None] * fw\n", "srs_frf: H by broadcasting, unit masses dropped"),
+    ("C03", "neutral", [], S, _FRF_H_EXPR, "            H = ks[pvel].reshape(-1, 1) - np.outer(ms[pvel], freqw**2) + 1j * np.outer(bs[pvel], freqw)\n", "srs_frf: H with np.outer"),
+    ("C03", "neutral", [], S, "            shk[:, j] = abs(a).max(axis=1)\n", "            shk[:, j] = np.amax(np.absolute(a), 1)\n", "srs_frf: peak as np.amax(np.absolute(a), 1)"),
+    ("C03", "neutral", [], S, _FRF_LOOP_BODY, "            a[:] = 0.0\n            fs = frf[:, j]  # len(frf)\n            if el:\n                a[pvel] = fs * (freqw**2 / H + 1.0)\n",
+     "srs_frf: absolute response assembled in one store"),
+    ("C03", "neutral", [], S, _FRF_LOOP_BODY, "            fs = frf[:, j]\n            a = np.zeros((n, nf), complex)\n            if rb:\n                a[pvrb] = -fs\n            if el:\n"
+                                              "                a[pvel] = (fs * freqw**2) / H\n            a = a + fs\n", "srs_frf: fresh response array per FRF"),
+    ("C03", "neutral", [], S, "        pvrb = ks < 0.005  # ks/ms < .005 ... since ms == 1\n        pvel = np.logical_not(pvrb)\n", "        pvel = ks >= 0.005\n        pvrb = ~pvel\n",
+     "srs_frf: elastic mask first"),
+    ("C03", "neutral", [], S, "        rb = np.any(pvrb)\n        el = np.any(pvel)\n", "        rb = pvrb.any()\n        el = bool(np.count_nonzero(pvel) > 0)\n", "srs_frf: any() as method / count"),
+    ("C03", "neutral", [], S, _FRF_TAIL, '''        if getresp:
+            resp = dict(freq=ffreq, frfs=frfs, srs_frq=srs_frq)
+
+    out = (shk,)
+    if return_srs_frq:
+        out += (srs_frq,)
+    if getresp:
+        out += (resp,)
+    return out if len(out) > 1 else out[0]
+''', "srs_frf: result tuple assembled incrementally"),
+    ("C03", "neutral", [], S, _FRF_TAIL, '''    if getresp:
+        resp = {"freq": ffreq, "frfs": frfs, "srs_frq": srs_frq}
+        return (shk, srs_frq, resp) if return_srs_frq else (shk, resp)
+    return (shk, srs_frq) if return_srs_frq else shk
+''', "srs_frf: returns as conditional expressions"),
+    ("C03", "neutral", [], S, _FRF_THIN, "        ffreq = ffreq[np.r_[True, np.diff(ffreq) > 1.0e-5]]\n", "srs_frf: near-duplicates removed with an np.r_ mask"),
+    ("C03", "neutral", [], S, "        ffreq = np.sort(np.hstack((frf_frq, p_peak * srs_frq)))\n", "        ffreq = np.concatenate((frf_frq, srs_frq * p_peak))\n        ffreq.sort()\n",
+     "srs_frf: grid by concatenate and in-place sort"),
+    ("C03", "neutral", [], S, _FRF_INTERP, "        frf = interp.interp1d(frf_frq, frf, axis=0, bounds_error=False, fill_value=0, assume_sorted=True)(ffreq)\n", "srs_frf: interpolant called directly"),
+    ("C03", "neutral", [], S, _FRF_INTERP, _FRF_INTERP + "        frf = abs(frf)\n", "srs_frf: a second abs of the interpolated magnitudes"),
+    ("C03", "neutral", [], S, _FRF_INTERP, "        frf = np.column_stack(\n            [np.interp(ffreq, frf_frq, frf[:, k], left=0.0, right=0.0) for k in range(nfrf)]\n        )\n",
+     "srs_frf: np.interp per column in a comprehension"),
+    ("C03", "neutral", [], S, _FRF_DEFAULT, "        srs_frq = frf_frq if scale_by_Q_only else frf_frq / p_peak\n", "srs_frf: default oscillator frequencies as a conditional expression"),
+    ("C03", "neutral", [], S, _FRF_LOOP, _FRF_OWN_MAGNITUDE, "srs_frf: without getresp only the gain |H| is computed (real arithmetic; equal up to rounding)"),
+    ("C03", "neutral", [], S) + _FRF_OWN_WHERE + ("srs_frf: response assembled with np.where over all oscillators",),
+    ("C03", "neutral", [], S, _FRF_LOOP, _FRF_OWN_ALL, "srs_frf: all FRFs at once in a 3-D array"),
+    ("C03", "neutral", [], S) + _FRF_OWN_OSC + ("srs_frf: loop over the oscillators instead of the FRFs",),
+    ("C03", "neutral", [], S) + _FRF_OWN_NOTESTS + ("srs_frf: no rb / el tests, in-place update of the elastic rows",),
+    ("C03", "neutral", [], S) + _FRF_OWN_HELPERS + ("srs_frf built from four module-level helpers (grid, expansion, response filled through a parameter)",),
+    ("C03", "neutral", [], S, _FRF_INTERP, "        frf = psd.interp((frf_frq, frf), ffreq, linear=True)\n", "srs_frf: expansion through pyyeti.psd.interp (linear)"),
+    ("C03", "neutral", [], S, "        pvrb = ks < 0.005  # ks/ms < .005 ... since ms == 1\n", "        pvrb = np.less(ws**2, 5.0e-3)\n", "srs_frf: rigid mask through np.less on ws**2"),
+    ("C03", "neutral", [], S, _VRS_DF, "    # delta_f for area calculation (central differences, one-sided at the ends):\n    df = np.gradient(freq)\n", "vrs: quadrature weights as np.gradient(freq)"),
+    ("C03", "neutral", [], S, _VRS_DF, "    # Create delta_f for area calculation:\n    steps = np.diff(freq)\n    df = np.empty(rf)\n    df[1:-1] = (steps[1:] + steps[:-1]) / 2\n    df[0] = steps[0]\n    df[-1] = steps[-1]\n",
+     "vrs: quadrature weights from np.diff(freq)"),
+]
